@@ -18,6 +18,9 @@ def _cfg(base_cfg, subst, scratch, name):
     return p
 
 
+MAX_DIAG = 25
+
+
 def validate(ctx, module, base_cfg, traces, *, subst=None, name="trace", workers=8, evkey="ev", timeout=3600):
     """Returns list of (index, reason, first_unexplained_event_index) for rejected traces."""
     if not traces: return []
@@ -42,7 +45,9 @@ def validate(ctx, module, base_cfg, traces, *, subst=None, name="trace", workers
         if i in acc and i not in bad:
             continue
         reason = bad.get(i, "no spec behaviour explains the trace")
-        pos = diagnose(ctx, module, base_cfg, traces[i - 1], subst=subst, name=name)
+        # every rejected trace is reported; only the first MAX_DIAG are re-run alone to name the first unexplained event (a change
+        # that makes thousands of traces unexplainable would otherwise cost one TLC start per trace)
+        pos = diagnose(ctx, module, base_cfg, traces[i - 1], subst=subst, name=name) if len(rej) < MAX_DIAG else None
         rej.append((i - 1, reason, pos))
     ctx.traces += len(traces)
     return rej
